@@ -29,6 +29,11 @@ T = {
  'c18k': ('Python -> FPy function -> primitive whose Python body calls an FPy function on a Python-owned list of FPy numbers, and that function writes its parameter', 'C18 A3/H1 on use_table (needed that workload)'),
  'c19h': ('a rounding block beneath the body of an else-less if (If1Stmt)', 'C19 rewrite-outside-named-site / candidate-neither-site-nor-refusal'),
  'c19i': ('split with a remainder on a loop of static length whose body holds a site two blocks deep, then an aimed inline/unroll_for', 'C19 edit-log-miscounts (needed the static_nest root and chained rewrites)'),
+ 'c17h': ('a context with num_randbits=None and an operand whose lost part has leading zeros below the rounding position', 'C17 none-not-all-bits'),
+ 'c17i': ('ops.add/sub/mul (or + - * in a program) on integer-valued operands with a representable result under a stochastic context', 'C17 draw-count on the op_* routes'),
+ 'c18l': ("the calling thread's own gmpy2 context changed earlier (application code or a primitive's Python body), then an MPFR-backed operation on double-sized operands", 'C18 A3/H1 (needed the ambient fault, which also found F3 on the unchanged tree)'),
+ 'c19j': ('an indexed assignment with a site in a subscript and a site in the stored value, expression-sited strategy aimed by index', 'C19 index-and-listed-site-differ (needed the roots stores_a / ir_b and the index-versus-listed-site check)'),
+ 'c19k': ("inline of a call in a compound statement's header while other sites lie beneath it", 'C19 edit-log-miscounts on calls_c'),
 }
 base = os.path.join(os.path.dirname(os.path.dirname(os.path.abspath(__file__))), 'seeded')
 for mid, (needs, caught) in T.items():
